@@ -1,0 +1,15 @@
+//go:build verif
+
+package app
+
+import "github.com/f1bonacc1/process-compose/src/types"
+
+// VerifStateHook, when set by the verification harness, observes every status
+// transition of every process (called with the state mutex held).
+var VerifStateHook func(name string, status string, state *types.ProcessState)
+
+func verifState(p *Process, status string) {
+	if h := VerifStateHook; h != nil {
+		h(p.getName(), status, p.procState)
+	}
+}
